@@ -136,6 +136,7 @@ def build_index(ctx):
 
 def resolve_callee(ctx, callee):
     c = callee.strip()
+    c = re.sub(r"::<[^<>]*>$", "", c)      # trailing method generics  ...::write_bool::<W>
     if c.startswith("<"):
         # <Type as Trait>::method  (generic args stripped from both sides)
         m = re.match(r"^<(.+) as (.+)>::(\w+)$", c)
